@@ -93,7 +93,7 @@ type drv struct {
 type blob struct{ b []byte }
 
 func (x *blob) UnmarshalBinary(b []byte) error { x.b = append([]byte(nil), b...); return nil }
-func (x blob) MarshalBinary() ([]byte, error)   { return x.b, nil }
+func (x blob) MarshalBinary() ([]byte, error)  { return x.b, nil }
 
 type wireEntry struct {
 	key     string
@@ -684,6 +684,23 @@ func (d *drv) scenario(in Input) {
 		d.rep.Fail("c13-second-generation", "MarshalBinary of a restored merklizer failed: "+o.Msg, in)
 	}
 
+	// (a') the method called directly on a zero Merklizer (no options: package default hasher)
+	if !in.Cfg {
+		var mdir merklize.Merklizer
+		o := mzrun.Guard(30*time.Second, func() error { return mdir.UnmarshalBinary(b1) })
+		if o.Class != "ok" {
+			d.rep.Fail("c13-restore-"+o.Class, "(&Merklizer{}).UnmarshalBinary(own MarshalBinary) failed: "+o.Msg, in)
+		} else {
+			if mdir.Root().BigInt().Cmp(m1.Root().BigInt()) != 0 {
+				d.rep.Fail("c13-root", "direct UnmarshalBinary on a zero Merklizer restores another root", in)
+			}
+			d.compareEntries(s, ents1, entsOf(&mdir), want, "direct UnmarshalBinary")
+			if mdir.VerifSafeMode() != m1.VerifSafeMode() {
+				d.rep.Fail("c13-safemode", "direct UnmarshalBinary: safe mode flag changed", in)
+			}
+		}
+	}
+
 	// (b) repeated marshals: different map orders, same outcome
 	orders := map[string]bool{}
 	for i := 0; i < 20; i++ {
@@ -1184,7 +1201,7 @@ func (d *drv) writeShards() error {
 		if hi > n {
 			hi = n
 		}
-		f := coqgen.NewFile("From GSP Require Import Value.Time Value.Model Value.Run RDF.Model RDF.Run SMT.Model Merklizer.Model Merklizer.Script Merklizer.Run Merklizer.Binary Merklizer.BinaryRun.")
+		f := coqgen.NewFile("From GSP Require Import Value.Time Value.Model Value.Run RDF.Model RDF.Run SMT.Model Merklizer.Model Merklizer.Binary Merklizer.BinaryRun.")
 		name := filepath.Join(d.cfg.OutDir, fmt.Sprintf("cases_C13_%03d.v", k))
 		var cs []string
 		for i := lo; i < hi; i++ {
